@@ -238,6 +238,12 @@ def build():
                               (lambda op, byte, dm: lambda pc, v: enc_two(op, byte, dm, v, dm, v, pc))
                               (OPS1[real], byte, dm), note=None if byte else "W",
                               rel=[(0, dec_src_sym), (0, dec_dst_sym)] if dm == "sym" else None))
+        # index zero: the source side is shortened to @Rn, the destination keeps its index word
+        for byte in (False, True):
+            mn = m + (".B" if byte else "")
+            F.append(Form("%s 0(Rn)" % mn, "%s 0({0})" % mn, [Enum(IDXN)],
+                          (lambda op, byte: lambda pc, v: enc_two(op, byte, "@Rn", v, "x(Rn)", [0, v[0]], pc))
+                          (OPS1[real], byte)))
         # documented special case: rlc @r6+  ==  addc @r6+,-2(r6)
         F.append(Form("%s @Rn+" % m, "%s @{0}+" % m, [Enum(IDXN)],
                       (lambda op: lambda pc, v: enc_two(op, False, "@Rn+", v, "x(Rn)", [-2, v[0]], pc))(OPS1[real])))
